@@ -31,6 +31,8 @@ pub struct ThSetup {
 pub struct ThHarness {
     pub name: String,
     pub bound: u32,
+    /// Bound on non-default choices at points where the running thread cannot continue; 0 = unlimited.
+    pub free_bound: u32,
     pub cap_s: u64,
     pub describe: Value,
     pub mk: Box<dyn Fn() -> ThSetup>,
@@ -112,6 +114,7 @@ pub fn c04_threads(cfg: C04Cfg, bound: u32) -> ThHarness {
     ThHarness {
         name,
         bound,
+        free_bound: 0,
         cap_s: 0,
         describe,
         mk: Box::new(move || {
@@ -325,6 +328,7 @@ pub fn c11(cfg: C11Cfg, bound: u32) -> ThHarness {
     ThHarness {
         name,
         bound,
+        free_bound: 0,
         cap_s: 0,
         describe,
         mk: Box::new(move || {
@@ -555,6 +559,7 @@ pub fn c03_threads(cfg: C03Cfg, bound: u32) -> ThHarness {
     ThHarness {
         name,
         bound,
+        free_bound: 0,
         cap_s: 0,
         describe,
         mk: Box::new(move || {
@@ -768,6 +773,7 @@ pub fn c08_threads(cfg: C08Cfg, bound: u32) -> ThHarness {
     ThHarness {
         name,
         bound,
+        free_bound: 0,
         cap_s: 0,
         describe,
         mk: Box::new(move || {
@@ -942,6 +948,494 @@ pub fn c08_threads(cfg: C08Cfg, bound: u32) -> ThHarness {
                 });
                 simk::shutdown();
                 talloc::disarm();
+                v
+            });
+            ThSetup { bodies, actors, judge }
+        }),
+    }
+}
+
+// ------------------------------------------------- generic threaded operations
+
+/// What the kernel does for one task's operation, in order.
+#[derive(Clone, Copy, Debug, PartialEq, Eq)]
+pub enum Step {
+    Ok,
+    More,
+    FinalZero,
+    Notif,
+    Eintr,
+}
+
+pub struct ThOpsCfg {
+    pub prop: &'static str,
+    pub sq: u32,
+    pub cq: Option<u32>,
+    pub c0_cq: u32,
+    /// One task (thread) per entry: operation kind, the kernel's script for it,
+    /// and after how many polls the task drops its operation (None: runs to the end).
+    pub tasks: Vec<(Kind, Vec<Step>, Option<usize>)>,
+    /// Keep a canary operation in flight; the scribbler actor overwrites free
+    /// completion slots with its user_data.
+    pub canary: bool,
+    pub ring_polls: usize,
+    pub pool: (u16, u32),
+}
+
+struct ThOpsShared {
+    ring: Option<Ring>,
+    ops: Vec<Option<Op>>,
+    seen: Vec<Vec<Seen>>,
+    stuck: Vec<Option<String>>,
+    done: Vec<bool>,
+    events: Vec<(usize, String, u64)>,
+}
+
+/// The user_data of the submission task `nth` of kind `kind` made: found by the
+/// shape the catalogue gives that operation (opcode and length are distinct per task).
+fn find_user_data(kind: Kind, nth: usize) -> Option<u64> {
+    let (opcode, len): (u8, Option<u32>) = match kind {
+        Kind::ReadVec => (OP_READ, Some(8 + nth as u32)),
+        Kind::WriteVec => (OP_WRITE, Some(5 + nth as u32)),
+        Kind::SendZc => (OP_SEND_ZC, Some(4 + nth as u32)),
+        Kind::Send => (OP_SEND, Some(4 + nth as u32)),
+        Kind::MultishotRead => (OP_READ_MULTISHOT, None),
+        Kind::MultishotRecv => (OP_RECV, None),
+        Kind::MultishotAccept => (OP_ACCEPT, None),
+        Kind::Recv => (OP_RECV, Some(7 + nth as u32)),
+        _ => return None,
+    };
+    simk::with(|k| {
+        let matches = |s: &Sqe| s.opcode() == opcode && len.is_none_or(|l| s.len() == l) && s.user_data() > 3;
+        if let Some(r) = k.reqs.iter().find(|r| matches(&r.sqe)) {
+            return Some(r.user_data);
+        }
+        let r = &k.rings[0];
+        let (h, t) = (r.sq_head(), r.sq_tail());
+        for i in 0..t.wrapping_sub(h).min(r.sq_entries) {
+            let s = unsafe { *r.sqe_slot(h.wrapping_add(i)) };
+            if matches(&s) {
+                return Some(s.user_data());
+            }
+        }
+        None
+    })
+}
+
+pub fn thops(cfg: ThOpsCfg, bound: u32) -> ThHarness {
+    let name = format!(
+        "threads-{}-sq{}-cq{:?}@{:#x}{}",
+        cfg.tasks.iter().map(|(k, s, d)| format!("{k:?}{}{}", s.len(), d.map_or(String::new(), |d| format!("drop{d}")))).collect::<Vec<_>>().join("+"),
+        cfg.sq,
+        cfg.cq,
+        cfg.c0_cq,
+        if cfg.canary { "-canary" } else { "" }
+    );
+    let describe = json!({"engine": "schx", "tasks": cfg.tasks.iter().map(|(k, s, d)| format!("{k:?} script {s:?} drop_after {d:?}")).collect::<Vec<_>>(), "sq": cfg.sq, "cq": cfg.cq, "c0_cq": cfg.c0_cq, "canary_scribbling": cfg.canary, "ring_thread_polls": cfg.ring_polls, "preemption_bound": bound});
+    let cfg = Arc::new(cfg);
+    ThHarness {
+        name,
+        bound,
+        free_bound: 0,
+        cap_s: 0,
+        describe,
+        mk: Box::new(move || {
+            let cfg = cfg.clone();
+            let prop = cfg.prop;
+            simk::reset(simk::SetupPlan { c0_cq: cfg.c0_cq, ..Default::default() });
+            talloc::set_on_free(Some(simk::on_free));
+            let need_pool = cfg.tasks.iter().any(|(k, _, _)| k.needs_pool());
+            let (mut ring, sq, fd, pool) = talloc::track(|| {
+                let mut c = Ring::config().with_submission_queue_size(cfg.sq);
+                if let Some(cq) = cfg.cq {
+                    c = c.with_completion_queue_size(cq);
+                }
+                let ring = c.build().expect("ring");
+                let sq = ring.sq();
+                let raw = simk::with(|k| k.new_regular_pub());
+                let fd: &'static AsyncFd = Box::leak(Box::new(unsafe { AsyncFd::from_raw_fd(raw, sq.clone()) }));
+                let pool = if need_pool { Some(a10::io::ReadBufPool::new(sq.clone(), cfg.pool.0, cfg.pool.1).expect("pool")) } else { None };
+                (ring, sq, fd, pool)
+            });
+            // Canary: submitted and taken by the kernel before the threads start.
+            let mut canary: Option<(Op, HWaker, u64)> = None;
+            if cfg.canary {
+                let env = ops::Env { sq: &sq, fd, pool: None, nth: 99 };
+                let mut op = ops::make(Kind::ReadVec, &env);
+                let w = HWaker::new(999);
+                let tail = simk::with(|k| k.rings[0].sq_tail());
+                {
+                    let mut cx = Context::from_waker(&w.waker);
+                    assert_eq!(op.poll(&mut cx), Seen::Pending);
+                }
+                let ud = simk::with(|k| unsafe { (*k.rings[0].sqe_slot(tail)).user_data() });
+                talloc::track(|| ring.poll(Some(Duration::ZERO)).unwrap());
+                canary = Some((op, w, ud));
+            }
+            let canary_ud = canary.as_ref().map(|c| c.2);
+            let mut ops_v = Vec::new();
+            for (n, (kind, _, _)) in cfg.tasks.iter().enumerate() {
+                let env = ops::Env { sq: &sq, fd, pool: pool.as_ref(), nth: n };
+                ops_v.push(Some(ops::make(*kind, &env)));
+            }
+            let nt = cfg.tasks.len();
+            let shared = Arc::new(Mutex::new(Sendable(ThOpsShared { ring: Some(ring), ops: ops_v, seen: vec![Vec::new(); nt], stuck: vec![None; nt], done: vec![false; nt], events: Vec::new() })));
+            // user_data of each task's operation, learned when it first submits.
+            let uds: Arc<Mutex<Vec<Option<u64>>>> = Arc::new(Mutex::new(vec![None; nt]));
+            let mut bodies: Vec<(String, Body)> = Vec::new();
+            for t in 0..nt {
+                let shared = shared.clone();
+                let uds = uds.clone();
+                let drop_after = cfg.tasks[t].2;
+                let kind_of_task = cfg.tasks[t].0;
+                bodies.push((
+                    format!("task{t}"),
+                    Box::new(move || {
+                        let mut op_slot = shared.lock().unwrap().0.ops[t].take();
+                        let w = HWaker::new(1 + t as u32 * 100);
+                        let mut polls = 0;
+                        let mut dropped = false;
+                        loop {
+                            let op = op_slot.as_mut().unwrap();
+                            let wakes_before = w.wakes();
+                            let tail_before = simk::with(|k| k.rings[0].sq_tail());
+                            shared.lock().unwrap().0.events.push((t + 1, "task-poll-begin".into(), crate::waker::tick()));
+                            let seen = {
+                                let mut cx = Context::from_waker(&w.waker);
+                                op.poll(&mut cx)
+                            };
+                            let _ = tail_before;
+                            if uds.lock().unwrap()[t].is_none() {
+                                // Other threads submit concurrently: find this task's submission by its shape.
+                                if let Some(ud) = find_user_data(kind_of_task, t) {
+                                    uds.lock().unwrap()[t] = Some(ud);
+                                }
+                            }
+                            polls += 1;
+                            shared.lock().unwrap().0.events.push((t + 1, format!("task-poll-end:{}", if seen == Seen::Pending { "pending" } else { "ready" }), crate::waker::tick()));
+                            shared.lock().unwrap().0.seen[t].push(seen.clone());
+                            let finished = match (&seen, op.stream) {
+                                (Seen::End, _) => true,
+                                (Seen::Ready(_), false) => true,
+                                _ => false,
+                            };
+                            if finished {
+                                break;
+                            }
+                            if drop_after == Some(polls) {
+                                let o = op_slot.take();
+                                talloc::track(|| drop(o));
+                                dropped = true;
+                                break;
+                            }
+                            if seen == Seen::Pending {
+                                let w2 = w.clone();
+                                let woken = schx::block_until(Box::new(move || w2.wakes() > wakes_before), false, "waiting for its waker");
+                                if !woken {
+                                    shared.lock().unwrap().0.stuck[t] = Some(format!("task {t} never woken after poll #{polls}"));
+                                    break;
+                                }
+                            }
+                            if polls > 12 {
+                                break;
+                            }
+                        }
+                        let mut g = shared.lock().unwrap();
+                        g.0.done[t] = true;
+                        if !dropped {
+                            g.0.ops[t] = op_slot;
+                        }
+                    }),
+                ));
+            }
+            {
+                let shared = shared.clone();
+                let max_polls = cfg.ring_polls;
+                bodies.push((
+                    "ring".into(),
+                    Box::new(move || {
+                        let mut ring = shared.lock().unwrap().0.ring.take().unwrap();
+                        for _ in 0..max_polls {
+                            if shared.lock().unwrap().0.done.iter().all(|d| *d) {
+                                break;
+                            }
+                            shared.lock().unwrap().0.events.push((0, "ring-poll-begin".into(), crate::waker::tick()));
+                            talloc::track(|| {
+                                let _ = ring.poll(Some(Duration::from_secs(1)));
+                            });
+                            let head = simk::with(|k| k.rings[0].cq_head());
+                            shared.lock().unwrap().0.events.push((0, format!("ring-poll-end:{head}"), crate::waker::tick()));
+                        }
+                        shared.lock().unwrap().0.ring = Some(ring);
+                    }),
+                ));
+            }
+            // Kernel actors: per task, play its script on the request in flight for it.
+            let mut actors = Vec::new();
+            let progress: Arc<Mutex<Vec<usize>>> = Arc::new(Mutex::new(vec![0; nt]));
+            for t in 0..nt {
+                let script = cfg.tasks[t].1.clone();
+                let (uds1, uds2) = (uds.clone(), uds.clone());
+                let (p1, p2) = (progress.clone(), progress.clone());
+                let s1 = script.clone();
+                actors.push(Actor {
+                    name: format!("kernel-completes-task{t}"),
+                    enabled: Box::new(move || {
+                        let i = p1.lock().unwrap()[t];
+                        if i >= s1.len() {
+                            return false;
+                        }
+                        let Some(ud) = uds1.lock().unwrap()[t] else { return false };
+                        simk::with(|k| k.inflight_by_ud(ud).is_some_and(|s| (s1[i] == Step::Notif) == k.req(s).awaiting_notif))
+                    }),
+                    step: Box::new(move || {
+                        let i = p2.lock().unwrap()[t];
+                        let Some(ud) = uds2.lock().unwrap()[t] else { return };
+                        simk::with(|k| {
+                            if let Some(s) = k.inflight_by_ud(ud) {
+                                let out = match script[i] {
+                                    Step::Ok => Out::Default,
+                                    Step::More => Out::More(i32::MIN),
+                                    Step::FinalZero => Out::ZeroNoBuf,
+                                    Step::Notif => Out::Notif,
+                                    Step::Eintr => Out::Res(-libc::EINTR),
+                                };
+                                k.complete(s, out);
+                            }
+                        });
+                        p2.lock().unwrap()[t] += 1;
+                    }),
+                });
+            }
+            if let Some(ud) = canary_ud {
+                let budget = Arc::new(Mutex::new(3u32));
+                let b2 = budget.clone();
+                actors.push(Actor {
+                    name: "kernel-scribbles-free-cq-slots".into(),
+                    enabled: Box::new(move || *b2.lock().unwrap() > 0),
+                    step: Box::new(move || {
+                        *budget.lock().unwrap() -= 1;
+                        simk::with(|k| {
+                            let r = &k.rings[0];
+                            let head = r.cq_head();
+                            let tail = r.cq_tail();
+                            let n = r.cq_entries;
+                            let used = tail.wrapping_sub(head).min(n);
+                            for i in used..n {
+                                let pos = head.wrapping_add(i);
+                                unsafe { std::ptr::write_volatile(r.cqe_slot(pos), Cqe { user_data: ud, res: 3, flags: 0 }) };
+                            }
+                        })
+                    }),
+                });
+            }
+            let (sq2, pool2, canary2) = (Sendable(sq), Sendable(pool), Sendable(canary));
+            let cfgj = cfg.clone();
+            let judge = Box::new(move |_exec: &Exec| -> Vec<Violation> {
+                let (sq, pool, mut canary) = (sq2, pool2, canary2);
+                let mut v = sim_violations(prop);
+                let mut g = shared.lock().unwrap();
+                let s = &mut g.0;
+                let mut ring = s.ring.take().unwrap();
+                // Quiescence: the kernel finishes its scripts, everything is polled to the end.
+                let mut bail = !v.is_empty();
+                for _round in 0..8 {
+                    if bail {
+                        break;
+                    }
+                    talloc::track(|| {
+                        let _ = ring.poll(Some(Duration::ZERO));
+                    });
+                    for t in 0..nt {
+                        let Some(ud) = uds.lock().unwrap()[t] else { continue };
+                        let i = progress.lock().unwrap()[t];
+                        if i < cfgj.tasks[t].1.len() {
+                            simk::with(|k| {
+                                if let Some(ser) = k.inflight_by_ud(ud) {
+                                    let out = match cfgj.tasks[t].1[i] {
+                                        Step::Ok => Out::Default,
+                                        Step::More => Out::More(i32::MIN),
+                                        Step::FinalZero => Out::ZeroNoBuf,
+                                        Step::Notif => Out::Notif,
+                                        Step::Eintr => Out::Res(-libc::EINTR),
+                                    };
+                                    if (cfgj.tasks[t].1[i] == Step::Notif) == k.req(ser).awaiting_notif {
+                                        k.complete(ser, out);
+                                    }
+                                }
+                            });
+                            if simk::with(|k| k.inflight_by_ud(ud).is_none() || true) {
+                                progress.lock().unwrap()[t] = i + 1;
+                            }
+                        }
+                    }
+                    talloc::track(|| {
+                        let _ = ring.poll(Some(Duration::ZERO));
+                    });
+                    v.extend(sim_violations(prop));
+                    if !v.is_empty() {
+                        bail = true;
+                        break;
+                    }
+                    for t in 0..nt {
+                        if let Some(op) = s.ops[t].as_mut() {
+                            let last_final = s.seen[t].last().is_some_and(|x| matches!((x, op.stream), (Seen::End, _) | (Seen::Ready(_), false)));
+                            if last_final {
+                                continue;
+                            }
+                            let w = HWaker::new(500 + t as u32);
+                            let mut cx = Context::from_waker(&w.waker);
+                            let seen = op.poll(&mut cx);
+                            if seen != Seen::Pending {
+                                s.seen[t].push(seen);
+                            }
+                        }
+                    }
+                }
+                // C03: stuck tasks.
+                for t in 0..nt {
+                    if let Some(msg) = &s.stuck[t] {
+                        let last_begin = s.events.iter().rev().find(|(th, e, _)| *th == t + 1 && e == "task-poll-begin").map(|e| e.2).unwrap_or(0);
+                        // Completion-queue head published by each complete Ring::poll of
+                        // the ring thread that began after the task's last poll began.
+                        let mut begun = None;
+                        let mut heads: Vec<u32> = Vec::new();
+                        for (th, e, c) in &s.events {
+                            if *th == 0 && e == "ring-poll-begin" {
+                                begun = Some(*c);
+                            }
+                            if *th == 0 && e.starts_with("ring-poll-end:") {
+                                if begun.take().is_some_and(|b| b > last_begin) {
+                                    heads.push(e["ring-poll-end:".len()..].parse().unwrap_or(0));
+                                }
+                            }
+                        }
+                        let later_poll = !heads.is_empty();
+                        // Completions for the task that carry a result it still waits for
+                        // (not yet observed) and were consumed by one of those polls.
+                        let observed = s.seen[t].iter().filter(|x| **x != Seen::Pending).count();
+                        let consumed = uds.lock().unwrap()[t].is_some_and(|ud| simk::with(|k| {
+                            let stream = cfgj.tasks[t].0.is_stream();
+                            let mine: Vec<&simk::Written> = k.written.iter().filter(|w| w.cqe.user_data == ud).collect();
+                            mine.iter().enumerate().any(|(i, w)| {
+                                let readying = if stream { i >= observed } else { w.cqe.flags & CQE_F_MORE == 0 };
+                                readying && heads.iter().any(|h| h.wrapping_sub(w.pos).wrapping_sub(1) < (1 << 31))
+                            })
+                        }));
+                        if consumed && later_poll {
+                            v.push(Violation::new("C03", "lost-wakeup/completion", &format!("{msg}: a completion for it was consumed by a Ring::poll call that ran after its last poll, but its waker was never invoked; events {:?}", s.events)));
+                        }
+                    }
+                }
+                // C02 / C05: every task that ran to the end saw exactly its own results, in order.
+                if !bail {
+                    for t in 0..nt {
+                        if cfgj.tasks[t].2.is_some() {
+                            continue;
+                        }
+                        let Some(ud) = uds.lock().unwrap()[t] else { continue };
+                        let kind = cfgj.tasks[t].0;
+                        let outs: Vec<simk::OutRec> = simk::with(|k| k.reqs_by_ud(ud).into_iter().flat_map(|ser| k.req(ser).outs.clone()).collect());
+                        // Expected user-visible sequence.
+                        let mut want: Vec<Seen> = Vec::new();
+                        if kind.is_stream() {
+                            for o in &outs {
+                                if o.flags & CQE_F_MORE != 0 || o.res != 0 || o.flags & CQE_F_BUFFER != 0 {
+                                    if !(o.res == -libc::EINTR) {
+                                        want.push(Seen::Ready(crate::opsworld::OpsWorld::render(kind, t, o)));
+                                    }
+                                } else {
+                                    want.push(Seen::Ready(crate::opsworld::OpsWorld::render(kind, t, o)));
+                                }
+                            }
+                            if outs.iter().any(|o| o.flags & CQE_F_MORE == 0) {
+                                want.push(Seen::End);
+                            }
+                        } else if let Some(fin) = outs.iter().rev().find(|o| o.flags & CQE_F_NOTIF == 0 && o.res != -libc::EINTR) {
+                            if outs.iter().any(|o| o.flags & CQE_F_MORE == 0 && o.res != -libc::EINTR) {
+                                want.push(Seen::Ready(crate::opsworld::OpsWorld::render(kind, t, fin)));
+                            }
+                        }
+                        let got: Vec<Seen> = s.seen[t].iter().filter(|x| **x != Seen::Pending).cloned().collect();
+                        if got != want {
+                            v.push(Violation::new(prop, &format!("wrong-result/{kind:?}/threads"), &format!("task {t} ({kind:?}) observed {got:?}, the kernel posted for it {want:?}")));
+                        }
+                    }
+                    let (head, tail) = simk::with(|k| (k.rings[0].cq_head(), k.rings[0].cq_tail()));
+                    if head != tail {
+                        v.push(Violation::new("C05", "cq-not-drained", &format!("completions left unconsumed after Ring::poll: head={head:#x} tail={tail:#x}")));
+                    }
+                }
+                if let Some((op, w, _)) = canary.0.as_mut() {
+                    if !bail {
+                        let mut cx = Context::from_waker(&w.waker);
+                        let seen = op.poll(&mut cx);
+                        if seen != Seen::Pending {
+                            v.push(Violation::new("C05", "canary-resolved", &format!("an operation the kernel never completed resolved with {seen:?}")));
+                        }
+                    }
+                }
+                if !v.is_empty() {
+                    std::mem::forget(ring);
+                    std::mem::forget(std::mem::take(&mut s.ops));
+                    std::mem::forget(canary);
+                    std::mem::forget(pool);
+                    simk::shutdown();
+                    talloc::disarm();
+                    return v;
+                }
+                // Drop everything; the kernel answers what is still outstanding.
+                talloc::track(|| {
+                    for o in s.ops.iter_mut() {
+                        if let Some(op) = o.as_mut() {
+                            op.held.borrow_mut().clear();
+                            op.bufs.borrow_mut().clear();
+                        }
+                    }
+                    s.ops.clear();
+                    drop(canary);
+                });
+                for _ in 0..4 {
+                    talloc::track(|| {
+                        let _ = ring.poll(Some(Duration::ZERO));
+                    });
+                    for ser in simk::with(|k| k.inflight()) {
+                        simk::with(|k| {
+                            if k.req(ser).awaiting_notif {
+                                k.complete(ser, Out::Notif)
+                            } else if k.req(ser).multishot {
+                                k.complete(ser, Out::ZeroNoBuf)
+                            } else if !k.req(ser).done {
+                                k.complete(ser, Out::Res(-libc::ECANCELED))
+                            }
+                        });
+                    }
+                }
+                talloc::track(|| {
+                    let _ = ring.poll(Some(Duration::ZERO));
+                    drop(pool);
+                    drop(unsafe { Box::from_raw(std::ptr::from_ref(fd).cast_mut()) });
+                    let _ = ring.poll(Some(Duration::ZERO));
+                    drop(ring);
+                    drop(sq);
+                });
+                v.extend(sim_violations(prop));
+                simk::shutdown();
+                let rep = talloc::disarm();
+                if rep.double_frees > 0 {
+                    v.push(Violation::new("C06", "double-free", "operation state freed twice"));
+                }
+                if !rep.leaked.is_empty() {
+                    let total: usize = rep.leaked.iter().map(|b| b.size).sum();
+                    // Pool buffers / descriptors delivered to abandoned operations are known (C07/C08); memory must still be reclaimed.
+                    if std::env::var_os("A10MC_DUMP").is_some() {
+                        for b in &rep.leaked {
+                            let bytes = unsafe { std::slice::from_raw_parts(b.addr as *const u8, b.size.min(48)) };
+                            eprintln!("leaked: #{} {} bytes at {:#x}: {:02x?}", b.serial, b.size, b.addr, bytes);
+                        }
+                    }
+                    v.push(Violation::new("C06", "leak/threads", &format!("{} block(s), {total} bytes still allocated after everything was dropped", rep.leaked.len())));
+                }
                 v
             });
             ThSetup { bodies, actors, judge }
